@@ -10,7 +10,7 @@ use tokio::fs::{OpenOptions, read};
 
 use super::super::{Block, BlockCacheKey, Column, ColumnIndex, ColumnSeekPosition, IOBackend};
 use super::{RowSetIterator, path_of_data_column, path_of_index_column};
-use crate::catalog::ColumnCatalog;
+use crate::catalog::{ColumnCatalog, find_sort_key_id};
 use crate::storage::secondary::DeleteVector;
 use crate::storage::secondary::column::ColumnReadableFile;
 use crate::storage::secondary::encode::PrimitiveFixedWidthEncode;
@@ -137,14 +137,21 @@ impl DiskRowset {
     /// the start row id and this column should be primary key.
     /// If `begin_key` is greater than all blocks' `first_key`, we return the `first_key` of the
     /// last block.
+    /// Index of the column that range filters apply to: the primary key column, or the first
+    /// column if the RowSet has no primary key.
+    pub fn sort_key_column(&self) -> usize {
+        let sort_keys = find_sort_key_id(&self.column_infos);
+        sort_keys.first().copied().unwrap_or(0)
+    }
+
     /// Todo: support multi sort-keys range filter
     pub async fn start_rowid(&self, begin_key: Option<&DataValue>) -> ColumnSeekPosition {
         let Some(begin_key) = begin_key else {
             return ColumnSeekPosition::RowId(0);
         };
 
-        // for now, we only use the first column to get the start row id
-        let column = self.column(0);
+        // for now, we only use the first sort key column to get the start row id
+        let column = self.column(self.sort_key_column());
         let column_index = column.index();
 
         let start_row_id = match *begin_key {
